@@ -1,5 +1,7 @@
 package protocol
 
+import "bytes"
+
 // C20: malformed length fields from the network cannot crash or balloon the client.
 // The frame is N fully symbolic bytes (size prefix included) read through a protocol.Conn exactly as the
 // Transport does. Obligations: no panic, every loop bounded (unwinding assertion), every allocation whose size
@@ -8,10 +10,18 @@ package protocol
 const vhC20AllocLimit = 1 << 16 // bytes; the frame itself is at most a few dozen bytes
 
 // vhFrame: mode 0 = the 4-byte size prefix announces exactly the N-4 bytes that follow (all of them symbolic);
-// mode 1 = the prefix is symbolic as well (negative, oversized, short).
+// mode 1 = the prefix is symbolic as well (negative, oversized, short); mode 2 = symbolic and not smaller than N-4.
 func vhFrame(N, mode int) []byte {
 	if mode == 1 {
 		return vhBytes("frame", N)
+	}
+	if mode == 2 {
+		// the prefix announces at least the bytes that arrive (a peer that lies upwards or stalls): any value
+		// from N-4 to 2^31-1
+		f := vhBytes("frame", N)
+		size := int32(uint32(f[0])<<24 | uint32(f[1])<<16 | uint32(f[2])<<8 | uint32(f[3]))
+		vhAssume(size >= int32(N-4))
+		return f
 	}
 	n := N - 4
 	frame := []byte{byte(n >> 24), byte(n >> 16), byte(n >> 8), byte(n)}
@@ -20,6 +30,9 @@ func vhFrame(N, mode int) []byte {
 
 func VH_C20_ReadResponse(apiKey, version, N, mode int) {
 	vhAllocLimit(vhC20AllocLimit)
+	// sizes and counts are explored value by value up to N (a frame of N bytes cannot hold more elements); the
+	// obligations at each allocation and slice expression are discharged for every value
+	vhSplitCap(N)
 	frame := vhFrame(N, mode)
 	conn := NewConn(&vhFakeConn{data: frame}, "vh")
 	_, msg, err := ReadResponse(conn, ApiKey(apiKey), int16(version))
@@ -33,9 +46,58 @@ func VH_C20_ReadResponse(apiKey, version, N, mode int) {
 
 func VH_C20_ReadRequest(N, mode int) {
 	vhAllocLimit(vhC20AllocLimit)
+	vhSplitCap(N)
 	frame := vhFrame(N, mode)
 	conn := NewConn(&vhFakeConn{data: frame}, "vh")
 	_, _, _, msg, err := ReadRequest(conn)
 	vhAssert(vhAny(msg != nil, err != nil), "request-outcome-is-message-or-error")
 	vhReach("c20-request-done")
+}
+
+// Record sets: RecordSet.ReadFrom on L arbitrary bytes behind a size prefix (honest or arbitrary). Fields covered
+// by a checksum are exempt (the property says so): the stored CRC is assumed never to match the checksum computed
+// over arbitrary bytes (vhCRCMismatch), so everything up to and including the checksum comparison is explored.
+func VH_C20_RecordSet(L, mode, magic int) {
+	vhAllocLimit(vhC20AllocLimit)
+	vhCRCMismatch(mode&2 == 0) // mode 2/3: the stored checksum may also match (deeper than the property demands)
+	var data []byte
+	if mode&1 == 1 {
+		data = vhBytes("recordset", 4+L)
+	} else {
+		data = append([]byte{byte(L >> 24), byte(L >> 16), byte(L >> 8), byte(L)}, vhBytes("records", L)...)
+	}
+	// the magic byte (offset 16 of the set) decides the format: one work item per format, -1 = any other value
+	if L > 16 {
+		if magic >= 0 {
+			vhAssume(data[4+16] == byte(magic))
+		} else {
+			vhAssume(data[4+16] > 2)
+		}
+	}
+	if magic == 1 && L >= 26 {
+		// the timestamp of the first v1 message is not a length field and only feeds time.Unix (division by
+		// constants): concrete, stated in the spec
+		for i := 18; i < 26; i++ {
+			vhAssume(data[4+i] == 0)
+		}
+	}
+	rs := RecordSet{}
+	_, err := rs.ReadFrom(bytes.NewReader(data))
+	_ = err
+	vhReach("c20-recordset-done")
+}
+
+// The raw SASL exchange of a Transport connection (after a v0 handshake the token travels outside ReadResponse):
+// 4-byte length + bytes read by saslauthenticate.(*Request).RawExchange. Exercised here through the interface the
+// connection uses.
+func VH_C20_RawExchange(N int) {
+	vhAllocLimit(vhC20AllocLimit)
+	frame := vhBytes("raw", N)
+	fc := &vhFakeConn{data: frame}
+	conn := NewConn(fc, "vh")
+	conn.SetVersions(map[ApiKey]int16{SaslHandshake: 0, SaslAuthenticate: 0})
+	req := apiTypes[SaslAuthenticate].requests[0].new()
+	msg, err := conn.RoundTrip(req)
+	vhAssert(vhAny(msg != nil, err != nil), "raw-exchange-outcome-is-message-or-error")
+	vhReach("c20-raw-exchange")
 }
